@@ -5,7 +5,7 @@ all 2^32 16-bit pairs (Apalache). Conformance: exhaustive 8-bit tables through e
 position; 16-bit lattice^2 + seeded pairs (incl. colour > alpha, alpha = 1) and float images judged by TLC with
 exact (Wide / dyadic) arithmetic; all variants of one input must agree."""
 import random, struct
-import vlib
+import vlib, rz
 
 ALPHA_PT = {"U8x2": (2, 255, "u8"), "U8x4": (4, 255, "u8"), "U16x2": (2, 65535, "u16"), "U16x4": (4, 65535, "u16"),
             "F32x2": (2, 0, "f32"), "F32x4": (4, 0, "f32")}
